@@ -117,6 +117,8 @@ type prog struct {
 	codeSeq    int                  // distinct WASM codes made so far (see uniqueCode)
 	knownCodes map[common.Hash]bool // code hashes already stored by a successful deployment
 
+	chainOdds int // per cent of the steps on a live contract whose block is a same-contract chain (see drawChain)
+
 	ctxAddrs   []common.Address // addresses with a role in the step being generated: the target contract itself (for a deployment: its future address)
 	selfPicked bool             // an address argument of the step being generated is the target contract itself
 }
@@ -1131,6 +1133,97 @@ func (p *prog) wildStep(c *contract) *opSpec {
 	return p.mkCall(c, a, m, p.payAmount("wildPay", a, big.NewInt(0), sim.Dna(1)), p.wildArgs("wildArgs"), "wild", false)
 }
 
+// tableStep: one entry of the contract's own interface, every entry equally likely - each method of its call table and
+// its termination - with well-typed arguments, a sender the method accepts most of the time and a pay amount the method
+// can use (the mangler and the odd pay amounts still apply at their usual rates). Unlike smartStep it does not follow the
+// life cycle, so side entries (addStake, prolongVoting, a second push, ...) come up as often as the main path.
+func (p *prog) tableStep(c *contract) *opSpec {
+	if c.emb == nil {
+		p.ctxAddrs = []common.Address{c.addr}
+		return p.smartWasm(c)
+	}
+	return p.tableEntry(c, p.draw("tableEntry", len(c.emb.methods)+1), nil)
+}
+
+// tableEntry: entry k of the embedded contract's interface (k = len(methods): termination), sent by `forced` if given.
+func (p *prog) tableEntry(c *contract, k int, forced *sim.Actor) *opSpec {
+	p.ctxAddrs = []common.Address{c.addr}
+	pick := func(a *sim.Actor) *sim.Actor {
+		if forced != nil {
+			return forced
+		}
+		return a
+	}
+	if k >= len(c.emb.methods) {
+		args, cls := p.mangle([][]byte{p.anyAddr("tableTermDest")}, "tableTermArgs")
+		return p.mkTerminate(c, pick(p.ownerOr(c, "tableTermSender")), p.payAmount("tableTermPay", c.owner), args, cls, true)
+	}
+	m := c.emb.methods[k]
+	sender := pick(p.anySender("tableSender"))
+	var args [][]byte
+	hints := []*big.Int{big.NewInt(0)}
+	var post func(c *txCase) string
+	var onSuccess func()
+	// a sender's vote and salt: what the harness noted for it, otherwise fixed by the sender (proof and vote then agree)
+	voteOf := func(a *sim.Actor) *voteHint {
+		if h := c.votes[a.Idx]; h != nil {
+			return h
+		}
+		return &voteHint{vote: byte(a.Idx % 3), salt: []byte{byte(a.Idx), 7, 7}}
+	}
+	switch c.kind + "." + m {
+	case "TimeLock.transfer":
+		sender = pick(p.ownerOr(c, "tableOwner"))
+		args = [][]byte{p.destAddr("tableDest").Bytes(), p.anyBig("tableAmount", p.transferAmounts(c)...)}
+	case "Multisig.add":
+		sender = pick(p.ownerOr(c, "tableOwner"))
+		args = [][]byte{p.actorAddr("tableVoter").Bytes()}
+	case "Multisig.send", "Multisig.push":
+		args = [][]byte{p.destAddr("tableDest").Bytes(), p.anyBig("tableAmount", p.transferAmounts(c)...)}
+	case "OracleVoting.sendVoteProof":
+		if ids := p.identitySenders(); len(ids) > 0 && forced == nil {
+			sender = ids[p.draw("tableIdentity", len(ids))]
+		}
+		h := voteOf(sender)
+		args = [][]byte{voteHash(h.vote, h.salt)}
+		hints = []*big.Int{new(big.Int).SetBytes(p.cval(c, "votingMinPayment"))}
+		who := sender
+		onSuccess = func() { h.proof = true; c.votes[who.Idx] = h }
+	case "OracleVoting.sendVote":
+		if ids := p.identitySenders(); len(ids) > 0 && forced == nil {
+			sender = ids[p.draw("tableIdentity", len(ids))]
+		}
+		h := voteOf(sender)
+		args = [][]byte{{h.vote}, h.salt}
+		onSuccess = func() { h.voted = true }
+	case "OracleVoting.addStake":
+		hints = []*big.Int{sim.Dna(int64(1 + p.draw("tableStakeDna", 5))), big.NewInt(1)}
+		post = postStakeGrewByAmount()
+	case "RefundableOracleLock.deposit":
+		min := new(big.Int).Mul(p.fpg(), big.NewInt(10000))
+		hints = []*big.Int{min, new(big.Int).Add(min, sim.Dna(int64(1+p.draw("tableDepositDna", 30))))}
+	}
+	args, cls := p.mangle(args, "tableArgs")
+	op := p.mkCall(c, sender, m, p.payAmount("tablePay", sender, hints...), args, cls, true)
+	if cls == "typed" {
+		op.post = post
+		op.onSuccess = onSuccess
+	}
+	return op
+}
+
+// chainStep draws a step on contract c that is meant to share a block with further steps on the same contract.
+func (p *prog) chainStep(c *contract) *opSpec {
+	p.selfPicked = false
+	switch k := p.draw("chainStepKind", 10); {
+	case k < 6:
+		return p.tableStep(c)
+	case k < 9:
+		return p.smartStep(c)
+	}
+	return p.wildStep(c)
+}
+
 // votingDriver steers a calm voting-focused program through one complete life cycle at a time: a voting from
 // deployment to finishVoting, then the locks that watch it (check / push / deposit / refund / terminate).
 func (p *prog) votingDriver(alive []*contract) *opSpec {
@@ -1311,6 +1404,32 @@ func (p *prog) build(op *opSpec) (*types.Transaction, string) {
 			}
 		case k == 15:
 			gasClass, budget = "small", int64(rapid.IntRange(1, 400).Draw(p.t, "gasSmall"))
+		}
+	}
+	// MAX FEE THAT IS NOT A WHOLE NUMBER OF GAS UNITS: a declared maximum fee is an arbitrary amount; what it holds above
+	// intrinsic fee + budget x gas price and below one further gas unit buys nothing. Half of the txs carry such a
+	// remainder (1 wei, around half a unit, one wei below a whole unit, anywhere in between).
+	if minus == nil && fpg.Cmp(big.NewInt(4)) >= 0 && !p.chance("maxFeeWholeGasUnits", 50) {
+		half := new(big.Int).Quo(fpg, big.NewInt(2))
+		var rem *big.Int
+		switch p.draw("maxFeeRemainder", 8) {
+		case 0:
+			rem = big.NewInt(1)
+		case 1:
+			rem = new(big.Int).Sub(half, big.NewInt(1))
+		case 2:
+			rem = half
+		case 3:
+			rem = new(big.Int).Add(half, big.NewInt(1))
+		case 4:
+			rem = new(big.Int).Sub(fpg, big.NewInt(1))
+		default:
+			// anywhere inside the unit: a drawn number of 1/4096ths plus a few wei
+			rem = new(big.Int).Mul(fpg, big.NewInt(int64(1+p.draw("maxFeeRemainderPart", 4095))))
+			rem.Quo(rem, big.NewInt(4096)).Add(rem, big.NewInt(int64(p.draw("maxFeeRemainderWei", 3))))
+		}
+		if rem.Sign() > 0 && rem.Cmp(fpg) < 0 {
+			minus = new(big.Int).Neg(rem)
 		}
 	}
 	feeFor(tx, netSize, fpg, budget, minus)
